@@ -65,7 +65,12 @@ Inductive case :=
 | CRetHist (rows : list (list gv)) (calls : list Z) (o : list (list jobs))
 (* a value of a named scalar type handed to the script along some path: what the
    script sees, what Export gives, what a Go parameter of that kind receives back *)
-| CNamed (path : Z) (g : gv) (js : jobs) (exported : gv) (back : cres).
+| CNamed (path : Z) (g : gv) (js : jobs) (exported : gv) (back : cres)
+(* history on a bridged map[K]int for a key kind K, property names at and beyond K's range *)
+| CKMap (kk : kkind) (init : list (Z * Z)) (ops : list kop) (o : list ob)
+(* Go calls a JavaScript function passed for a func parameter: what the callback
+   saw as arguments, and what Go received (CV result) or the error class at the bridged call *)
+| CCallback (nparams : Z) (rt : cbty) (r : cbret) (seen : list Z) (o : cres).
 
 (* what a script reads from a bridged numeric element: the double nearest to it *)
 Definition js_read (o : outcome) : option dclass :=
@@ -202,6 +207,15 @@ Definition verdict (c : case) : Z * Z :=
       let e := named_seen g in
       judge (fun a b => jobs_eqb (fst (fst a)) (fst (fst b)) && gv_eqb (snd (fst a)) (snd (fst b)) && cres_eqb (snd a) (snd b))
             (js, exported, back) e e 0
+  | CKMap kk init ops o => judge obs_eqb o (krun false kk init ops) (krun true kk init ops) 17
+  | CCallback nparams rt r seen o =>
+      match cb_call false false rt r with
+      | CDecl => declined
+      | m =>
+          judge (fun a b => zlist_eqb (fst a) (fst b) && cres_eqb (snd a) (snd b)) (seen, o)
+                (cb_args rt nparams, m) (cb_args rt nparams, cb_call true true rt r)
+                (if cres_eqb (cb_call true false rt r) m then 11 else 1)
+      end
   | CRetHist rows calls o =>
       let e := ret_hist rows calls in judge (list_eqb (list_eqb jobs_eqb)) o e e 0
   end.
